@@ -145,6 +145,7 @@ where
         let s = match srng.below(4) {
             0 => Strat::Pct { d: srng.range(1, 3) as u32, horizon: (nt * 16 * 30) as u64 },
             1 => Strat::Adversary { victim: srng.below(nt as u64) as usize, k: srng.range(1, 2) as u32, p: *srng.pick(&[2, 4, 8]) },
+            2 => Strat::Windows { p_in: *srng.pick(&[8, 12, 16]), p_out: *srng.pick(&[0, 1, 2]) },
             _ => Strat::Random { sw: *srng.pick(&[2, 4, 8, 16]) },
         };
         sched::token_prepare(nt, cfg.sseed, s.clone(), cfg.record);
